@@ -9,16 +9,18 @@ namespace Pxv.Store
 def natAt? (a : Array Json) (i : Nat) : Option Nat := (a[i]?).bind (·.getNat?.toOption)
 
 /-- An op of the protocol: `none` = malformed, `some (Sum.inl ms)` = `advance`. -/
-def op? (j : Json) : Option (Sum Nat (Op Nat)) :=
+def op? (ns : Nat) (j : Json) : Option (Sum Nat (Op Nat)) :=
   match j with
   | .arr a =>
     let name : String := match (a[0]? : Option Json) with
       | some (Json.str s) => s
       | _ => ""
     if name == "create" then do
-      let i ← natAt? a 1; let s ← natAt? a 2; let t ← natAt? a 3; pure (.inr (.create i s t))
+      let i ← natAt? a 1; let s ← natAt? a 2; let t ← natAt? a 3
+      if s < ns then pure (.inr (.create i s t)) else none
     else if name == "update" then do
-      let i ← natAt? a 1; let s ← natAt? a 2; let t ← natAt? a 3; pure (.inr (.update i s t))
+      let i ← natAt? a 1; let s ← natAt? a 2; let t ← natAt? a 3
+      if s < ns then pure (.inr (.update i s t)) else none
     else if name == "update_ttl" then do
       let i ← natAt? a 1; let t ← natAt? a 2; pure (.inr (.updateTtl i t))
     else if name == "load" then do let i ← natAt? a 1; pure (.inr (.load i))
@@ -84,7 +86,7 @@ def dumpJson (c : Cfg) (now : Nat) (t : Tbl Nat) : Json :=
 
 def opsOf (j : Json) (k : String) : Option (List (Sum Nat (Op Nat))) :=
   match getArr? j k with
-  | some l => l.mapM op?
+  | some l => l.mapM (op? ((getNat? j "nstates").getD 0))
   | none => some []
 
 def handleSeq (c : Cfg) (j : Json) : Json :=
@@ -98,7 +100,8 @@ def handleSeq (c : Cfg) (j : Json) : Json :=
 /-! ### Concurrent histories: is there a sequential order of the tasks' calls that explains the
 observed answers? Depth-first search over interleavings with the *model's* step function; an order
 must respect each task's program order and real-time precedence (a call that had returned before
-another was invoked comes first). -/
+another was invoked comes first), and must also explain what the sequential post-phase and the
+final table dump showed. -/
 
 structure Obs where
   op : Op Nat
@@ -106,29 +109,35 @@ structure Obs where
   inv : Nat
   resp : Nat
 
-def obs? (opj rj : Json) : Option Obs :=
-  match op? opj with
+def obs? (ns : Nat) (opj rj : Json) : Option Obs :=
+  match op? ns opj with
   | some (.inr op) =>
     match rj.getObjVal? "r", rj.getObjValAs? Nat "inv", rj.getObjValAs? Nat "resp" with
     | .ok r, .ok i, .ok s => some ⟨op, r, i, s⟩
     | _, _, _ => none
   | _ => none
 
-/-- For `delete_expired` only the count is compared (the removed set is not observable mid-flight). -/
+/-- Mid-flight only the count of `delete_expired` is observable. -/
 def sameAnswer (q : Nat) (model : Res Nat) (observed : Json) : Bool :=
   match model with
   | .deleted n _ => observed.compress == (Json.mkObj [("n", jnat n)]).compress
   | r => (resJson q r).compress == observed.compress
 
-def removeAt {α} : List α → Nat → List α
-  | [], _ => []
-  | _ :: xs, 0 => xs
-  | x :: xs, n + 1 => x :: removeAt xs n
+structure ConcIn where
+  c : Cfg
+  now : Nat
+  post : List (Sum Nat (Op Nat))
+  postSeen : String     -- compressed JSON array of the observed post-phase answers
+  finalSeen : String
 
 /-- `fuel` bounds the number of search nodes. Returns the witness (task indices) if one exists. -/
-partial def search (c : Cfg) (now : Nat) (fuel : IO.Ref Nat) (t : Tbl Nat) (tasks : Array (List Obs))
+partial def search (ci : ConcIn) (fuel : IO.Ref Nat) (t : Tbl Nat) (tasks : Array (List Obs))
     (acc : List Nat) : IO (Option (List Nat)) := do
-  if tasks.all (·.isEmpty) then return some acc.reverse
+  if tasks.all (·.isEmpty) then
+    let ((now', t'), postRes) := runOps ci.c ci.now t ci.post []
+    if (Json.arr postRes.toArray).compress == ci.postSeen && (dumpJson ci.c now' t').compress == ci.finalSeen then
+      return some acc.reverse
+    else return none
   let f ← fuel.get
   if f == 0 then return none
   fuel.set (f - 1)
@@ -136,47 +145,41 @@ partial def search (c : Cfg) (now : Nat) (fuel : IO.Ref Nat) (t : Tbl Nat) (task
     match tasks[k]! with
     | [] => pure ()
     | o :: rest =>
-      -- real-time precedence: no other pending call returned before `o` was invoked
       let blocked := (List.range tasks.size).any (fun k' => k' != k && match tasks[k']! with
         | o' :: _ => o'.resp < o.inv
         | [] => false)
       if !blocked then
-        let r := c.step now o.op t
-        if sameAnswer c.q r.2 o.res then
-          match ← search c now fuel r.1 (tasks.set! k rest) (k :: acc) with
+        let r := ci.c.step ci.now o.op t
+        if sameAnswer ci.c.q r.2 o.res then
+          match ← search ci fuel r.1 (tasks.set! k rest) (k :: acc) with
           | some w => return some w
           | none => pure ()
   return none
 
 def handleConc (c : Cfg) (j : Json) : IO Json := do
-  match opsOf j "pre", opsOf j "post", getArr? j "tasks", getArr? j "observed" with
-  | some pre, some post, some tasksJ, some obsJ =>
+  let ns := (getNat? j "nstates").getD 0
+  match opsOf j "pre", opsOf j "post", getArr? j "tasks", getArr? j "observed",
+      getVal? j "observed_post", getVal? j "observed_final" with
+  | some pre, some post, some tasksJ, some obsJ, some postSeen, some finalSeen =>
     let ((now, t), preRes) := runOps c 0 [] pre []
     let tasks? : Option (List (List Obs)) := (tasksJ.zip obsJ).mapM (fun (tj, oj) =>
       match tj, oj with
-      | .arr ops, .arr rs => if ops.size != rs.size then none else (ops.toList.zip rs.toList).mapM (fun (a, b) => obs? a b)
+      | .arr ops, .arr rs =>
+        if ops.size != rs.size then none else (ops.toList.zip rs.toList).mapM (fun (a, b) => obs? ns a b)
       | _, _ => none)
     match tasks? with
     | none => return Json.mkObj [("r", "bad-op")]
     | some tasks =>
-      let fuel ← IO.mkRef 2000000
-      let w ← search c now fuel t tasks.toArray []
+      if tasksJ.length != obsJ.length then return Json.mkObj [("r", "bad-op")]
+      let fuel ← IO.mkRef 3000000
+      let w ← search ⟨c, now, post, postSeen.compress, finalSeen.compress⟩ fuel t tasks.toArray []
+      let f ← fuel.get
       match w with
       | none =>
-        let f ← fuel.get
         return Json.mkObj [("r", "ok"), ("pre", Json.arr preRes.toArray), ("explained", false), ("exhausted", f == 0)]
       | some w =>
-        -- replay the witness to obtain the state the post-phase starts from
-        let rec replay (t : Tbl Nat) (tasks : Array (List Obs)) : List Nat → Tbl Nat
-          | [] => t
-          | k :: ks => match tasks[k]! with
-            | o :: rest => replay (c.step now o.op t).1 (tasks.set! k rest) ks
-            | [] => replay t tasks ks
-        let t' := replay t tasks.toArray w
-        let ((now', t''), postRes) := runOps c now t' post []
-        return Json.mkObj [("r", "ok"), ("pre", Json.arr preRes.toArray), ("explained", true),
-          ("witness", natListJson w), ("post", Json.arr postRes.toArray), ("final", dumpJson c now' t'')]
-  | _, _, _, _ => return Json.mkObj [("r", "bad-op")]
+        return Json.mkObj [("r", "ok"), ("pre", Json.arr preRes.toArray), ("explained", true), ("witness", natListJson w)]
+  | _, _, _, _, _, _ => return Json.mkObj [("r", "bad-op")]
 
 def handleIO (j : Json) : IO Json := do
   if getStr? j "kind" == some "sql_texts" then
